@@ -12,6 +12,7 @@ DEPS = os.path.join(VERIF, '.deps')
 EPOCH = 1700000000.0          # realistic wall-clock base for time.time()
 
 _ready = False
+CLOCK_OFFSET = [0.0]       # added to the virtual clock: lets a harness keep wall time monotonic across agent restarts
 
 
 def setup():
@@ -47,5 +48,5 @@ def patch_clock():
     if getattr(time, '_verif_patched', False):
         return
     time._real_time = time.time
-    time.time = lambda: EPOCH + reactor.seconds()
+    time.time = lambda: EPOCH + CLOCK_OFFSET[0] + reactor.seconds()
     time._verif_patched = True
